@@ -3,6 +3,7 @@
 # the compiled-extension cache for the current basis_eval.pyx.  Everything comes from files on disk.
 cd "$(dirname "$0")" || exit 2
 export OMP_NUM_THREADS=1 OPENBLAS_NUM_THREADS=1
+/venv/bin/python -c "import sys; sys.path.insert(0,'harness'); from vlib import leanproof; leanproof.write_driver_all(); leanproof.write_root()" || exit 1
 ( cd lean && lake build Splipy ) || exit 1
 /venv/bin/python - <<'PY' || exit 1
 import sys
